@@ -92,7 +92,7 @@ CONC = {
                 trusted_base=TB_CONC,
                 assumptions=['the reservation step carries the value its own Add returned and the limit the thread loads next; that the code hands back a reservation above that limit is part of the replayed protocol (no assumption that there is one event loop)',
                              'n < 1 means runtime.NumCPU() (config.go withSafeConcurrency; covered by the lifecycle model C14_tunepool_sets_concurrency)']),
-    'C06': dict(module='Properties.C06', file='Properties/C06.v', slices=['disp', 'barrier'],
+    'C06': dict(module='Properties.C06', file='Properties/C06.v', slices=['disp', 'barrier', 'lock'],
                 families=['burst', 'lifecycle', 'cancel', 'saturate', 'pool', 'persist', 'ctlrace', 'barriers', 'stopwindow'],
                 quick_episodes=250, thorough_episodes=3000,
                 rule=SLICE_DISP_RULE, trusted_base=TB_CONC,
@@ -112,7 +112,7 @@ CONC = {
                 rule=SLICE_JOB_RULE + '; plus the queue differential test of C04 (an element accepted by a queue is handed out exactly once)', trusted_base=TB_CONC,
                 assumptions=['job-level theorem: each enqueued job is handed out by its queue at most once (Fifo/Heap refinement theorems, C04) and each payload sent to a pool node is received at most once (channel semantics)',
                              '"eventually runs" is the progress property C03; identity of ID/data: monitors + C12']),
-    'C03': dict(module='Properties.C03', file='Properties/C03.v', slices=['wake', 'batch'],
+    'C03': dict(module='Properties.C03', file='Properties/C03.v', slices=['wake', 'batch', 'lock'],
                 families=['burst', 'lifecycle', 'cancel', 'saturate', 'pool', 'persist', 'recover', 'multiq', 'batch', 'order', 'staleloop'],
                 quick_episodes=150, thorough_episodes=2000, crash_props=['C03'],
                 native=dict(scenarios=['bigburst', 'bigbatch'], rounds=1, thorough_rounds=1),
